@@ -1733,6 +1733,7 @@ _NP_FUNCS = {
     "heaviside": lambda a, h0: _np_ewise2(a, h0, lambda x, h: Q(1) if x > 0 else Q(0) if x < 0 else h),
     "moveaxis": lambda a, s_, d_: _np_moveaxis(a, s_, d_),
     "put": lambda a, ind, v: _np_put(a, ind, v),
+    "count_nonzero": lambda a, axis=None, **k: (lambda A: sum(1 for x in A.data if not _same(exact(x), 0) and x is not False))(XArray.from_nested(a)) if axis is None else (_ for _ in ()).throw(XArrayError("np.count_nonzero along an axis is not modelled")),
     "vstack": lambda seq, **k: _np_concatenate([(lambda x: x.reshape(1, -1) if x.ndim == 1 else x)(XArray.from_nested(s_)) for s_ in seq], 0),
     "cumsum": lambda a, axis=None, **k: _np_cumsum(a, axis),
     "fromiter": lambda it, dtype=None, count=-1: (lambda v: XArray((len(v),), v, "i" if dtype is int else "f"))([exact(x) for x in it]),
@@ -2201,7 +2202,7 @@ _PY_BUILTINS = {
     "divmod": divmod,
     "frozenset": frozenset,
     "getattr": lambda o, n, d=None: getattr(o, n, d) if not isinstance(o, (XObj,)) else o.attrs.get(n, d),
-    "hasattr": lambda o, n: hasattr(o, n),
+    "hasattr": lambda o, n: (n in o.attrs or any(n in c.methods or n in c.class_attrs for c in o.cls.mro)) if isinstance(o, XObj) else hasattr(o, n),
     "setattr": _py_setattr,
     "complex": complex,
     "next": lambda it, *d: next(it, *d),
